@@ -53,7 +53,7 @@ class Shaped(Exception):
 
 
 PATH = "/cfg/rails/bad.co"
-NKINDS = 13
+NKINDS = 15
 
 
 def _make_exc(kind, line, col, has_line, has_col):
@@ -86,6 +86,10 @@ def _make_exc(kind, line, col, has_line, has_col):
         return TypeError("unsupported operand")
     if kind == 11:
         return ValueError("Unsupported colang version 3")
+    if kind == 13:
+        return ValueError("malformed node or string on line 1: <ast.Name object at 0x7f>")
+    if kind == 14:
+        return UnicodeDecodeError("utf-8", b"\xff", 0, 1, "invalid start byte")
     e = Shaped("shaped")
     if has_line:
         e.line = line
@@ -187,6 +191,7 @@ CORPUS_V2 = [
     "flow main\n  send A()\nflow main\n  ???",
     "﻿flow main\n  send A() }",
     "flow main\n  match Ev()\r\n  send {",
+    "@meta(priority=compute())\nflow main\n  send A()\n",
 ]
 CORPUS_V1 = [
     "define flow\n  user",
@@ -201,17 +206,21 @@ CORPUS_V1 = [
     "define flow a\n  else\n    bot x",
     "define subflow\n  goto",
     "define flow a\n\tuser x",
+    "define flow x",
+    "define user y\n  \"a\"\n\ndefine flow x\n",
+    "define bot b",
+    "define flow a\n  execute fetch_profile(name=john)\n",
 ]
 
 
 def corpus_file(k: int, v2: bool) -> bool:
     """
     Concrete malformed files through RailsConfig.from_path with the real parsers (plain enumeration, file I/O untraced).
-    pre: 0 <= k < 24
+    pre: 0 <= k < 25
     post: _
     """
     global LAST_INFO
-    k, v2 = conc(k, 0, 23), concb(v2)
+    k, v2 = conc(k, 0, 24), concb(v2)
     with untraced():
         corpus = CORPUS_V2 if v2 else CORPUS_V1
         if k >= len(corpus):
@@ -226,6 +235,13 @@ def corpus_file(k: int, v2: bool) -> bool:
                 f.write(text)
             outcome = "loaded"
             ok = True
+            import signal
+
+            def _alarm(*a):
+                raise TimeoutError("parser did not return within 20 s")
+
+            old = signal.signal(signal.SIGALRM, _alarm)
+            signal.alarm(20)
             try:
                 RailsConfig.from_path(d)
             except ColangParsingError as e:
@@ -234,6 +250,9 @@ def corpus_file(k: int, v2: bool) -> bool:
             except Exception as e:  # noqa
                 outcome = type(e).__name__ + ": " + str(e)[:200]
                 ok = False
+            finally:
+                signal.alarm(0)
+                signal.signal(signal.SIGALRM, old)
             LAST_INFO = {"v2": v2, "text": text, "outcome": outcome}
             return ok
         finally:
@@ -249,6 +268,10 @@ V2_PROGRAMS = [
     "import core\n\n@active\nflow greet $name=\"x\" -> $out\n  \"\"\"Doc string.\"\"\"\n  $out = \"hi {$name}\"\n  return $out\n\nflow main\n  activate greet\n  $d = {\"a\": [1, 2], \"b\": {3}}\n  match Ev(p=$d) and (Ev2() or Ev3())\n",
     "flow main\n  global $g\n  $g = 1\n  when user said \"hi\"\n    bot say \"hello\"\n  else\n    abort\n  await x\n\nflow x\n  match regex(\"a.*\").Finished() as $e\n  priority 0.5\n  send E(v=$e.value)\n",
 ]
+V2_PROGRAMS.append(
+    "flow user greeted\n  match UtteranceUserActionFinished(final_transcript=\"hi\")\n    or UtteranceUserActionFinished(final_transcript=\"hello\")\n"
+    "    or UtteranceUserActionFinished(final_transcript=\"hey\")\n\nflow bot greets\n  await UtteranceBotAction(script=\"Hi there\")\n    and GestureBotAction(gesture=\"Wave\")\n\n"
+    "flow main\n  user greeted\n  bot greets\n  match RestartEvent()\n")
 V1_PROGRAMS = [
     "define user express greeting\n  \"hello\"\n  \"hi\"\n\ndefine bot express greeting\n  \"Hello there!\"\n\ndefine flow greeting\n  user express greeting\n  if $x == 1\n    bot express greeting\n  else\n    execute foo(a=1)\n  $y = 2\n  while $y > 0\n    $y = $y - 1\n",
     "define flow a\n  user ask\n  do b\n  bot answer\n\ndefine subflow b\n  $z = execute lookup(q=$last_user_message)\n  if not $z\n    bot refuse\n    stop\n",
@@ -333,25 +356,25 @@ def layout_invariant(kind: int, pos: int, amount: int, kind2: int, pos2: int) ->
 SPEC = {
     "property": "C13",
     "functions": FUNCTIONS,
-    "bounds": "(a) exception class from a 13-entry pool (lark UnexpectedEOF/Characters/Token, DedentError, ColangSyntaxError, builtin errors, an exception with arbitrary/None/missing "
-              "line & column), line/column in -2..5 or absent, files of 0..3 lines with/without trailing newline, both Colang versions; a 36-file concrete malformed corpus through from_path; "
-              "(b) 3 Colang-2 and 2 Colang-1 programs under every single and every pair of layout edits (5 kinds x line position)",
+    "bounds": "(a) exception class from a 15-entry pool (lark UnexpectedEOF/Characters/Token, DedentError, ColangSyntaxError, builtin errors, an exception with arbitrary/None/missing "
+              "line & column), line/column in -2..5 or absent, files of 0..3 lines with/without trailing newline, both Colang versions; a 41-file concrete malformed corpus through from_path; "
+              "(b) 4 Colang-2 (incl. multi-line and/or continuations) and 2 Colang-1 programs under every single and every pair of layout edits (5 kinds x line position)",
     "outside": "totality of the parsers over arbitrary text and hangs (the Lark lexer / regexes realise symbolic text; only the handler is quantified symbolically); trailing TABs "
                "(the 2.x grammar rejects them - not claimed); comment-only lines (not end-of-line comments); programs outside the catalogue",
     "assumptions": ["(a) parse_colang_file is replaced by a stub raising the solver-chosen exception; open() by an in-memory file",
                     "(b) and the corpus run the parsers natively (input concrete per path): the solver enumerates the edit / corpus index space exhaustively"],
     "explanation": "Oracle (a): ColangParsingError whose text contains the file path, never another type. (b): parse results equal modulo source positions.",
     "conditions": [
-        {"fn": "handler_total", "slices": [{"v2fix": 0}, {"v2fix": 1}], "tcond": 600, "tpath": 10, "bound": "13 exception shapes x line -2..4 / col -1..2 / absent / None x 0..3 lines x trailing newline",
+        {"fn": "handler_total", "slices": [{"v2fix": 0}, {"v2fix": 1}], "tcond": 600, "tpath": 10, "bound": "15 exception shapes x line -2..4 / col -1..2 / absent / None x 0..3 lines x trailing newline",
          "smoke": [{"slice": {}, "args": {"kind": 1, "line": 1, "col": 2, "has_line": True, "has_col": True, "nl": 2, "trailing": False, "v2": True}},
                    {"slice": {}, "args": {"kind": 0, "line": 0, "col": 0, "has_line": False, "has_col": False, "nl": 1, "trailing": False, "v2": True}},
                    {"slice": {}, "args": {"kind": 3, "line": 0, "col": 0, "has_line": False, "has_col": False, "nl": 2, "trailing": True, "v2": False}}]},
         {"fn": "handler_twin", "expect": "counterexample", "slices": [{}], "tcond": 120, "tpath": 10, "bound": "twin"},
-        {"fn": "corpus_file", "slices": [{}], "tcond": 600, "tpath": 30, "bound": "24 Colang-2 + 12 Colang-1 malformed files through RailsConfig.from_path",
+        {"fn": "corpus_file", "slices": [{}], "tcond": 600, "tpath": 30, "bound": "25 Colang-2 + 16 Colang-1 malformed files, 20 s hang guard each through RailsConfig.from_path",
          "smoke": [{"slice": {}, "args": {"k": 0, "v2": True}}, {"slice": {}, "args": {"k": 1, "v2": True}}, {"slice": {}, "args": {"k": 3, "v2": False}}]},
-        {"fn": "layout_invariant", "tiers": ("quick",), "slices": [{"prog": p, "v2": 1} for p in range(3)] + [{"prog": p, "v2": 0} for p in range(2)], "tcond": 300, "tpath": 30,
-         "bound": "every single layout edit on all 5 programs", "smoke": [{"slice": {"prog": 0, "v2": 1}, "args": {"kind": 2, "pos": 0, "amount": 1, "kind2": 3, "pos2": 3}}]},
-        {"fn": "layout_invariant", "tiers": ("thorough",), "slices": [{"prog": p, "v2": 1, "pairs": 1, "kind": k} for p in range(3) for k in range(5)] + [{"prog": p, "v2": 0, "pairs": 1, "kind": k} for p in range(2) for k in range(5)], "tcond": 3000, "tpath": 30,
-         "bound": "single + pairs of edits on all 5 programs"},
+        {"fn": "layout_invariant", "tiers": ("quick",), "slices": [{"prog": p, "v2": 1} for p in range(4)] + [{"prog": p, "v2": 0} for p in range(2)], "tcond": 300, "tpath": 30,
+         "bound": "every single layout edit on all 6 programs", "smoke": [{"slice": {"prog": 0, "v2": 1}, "args": {"kind": 2, "pos": 0, "amount": 1, "kind2": 3, "pos2": 3}}]},
+        {"fn": "layout_invariant", "tiers": ("thorough",), "slices": [{"prog": p, "v2": 1, "pairs": 1, "kind": k} for p in range(4) for k in range(5)] + [{"prog": p, "v2": 0, "pairs": 1, "kind": k} for p in range(2) for k in range(5)], "tcond": 3000, "tpath": 30,
+         "bound": "single + pairs of edits on all 6 programs"},
     ],
 }
